@@ -7,7 +7,10 @@ export CARGO_NET_OFFLINE=true
 mkdir -p .cache ocaml/gen evidence replays
 echo "== coq"; python3 coq/build.py -j 16 --timeout 2400 -k 2>&1 | tail -n 40
 echo "== harness"
-( cd harness && CARGO_TARGET_DIR=../.cache/target RUSTFLAGS="--cfg yui_verif" cargo build --release --offline --bins 2>&1 | tail -n 5 )
+for b in harness/src/bin/*.rs; do
+  n=$(basename "$b" .rs)
+  ( cd harness && CARGO_TARGET_DIR=../.cache/target RUSTFLAGS="--cfg yui_verif" cargo build --release --offline --bin "$n" 2>&1 | tail -n 2 )
+done
 echo "== runners"
 python3 - <<'PY'
 import sys, os, glob
